@@ -175,6 +175,14 @@ def edge_lattice():
     u = gate("U", "n")
     u["implies"].append({"t": "T", "c": Y})
     prog("direct-dep-only", [gate("G"), u, mk_config("T", "bool", prompt=None, dep=S("G")), obs_b()], [gv, uv])
+    # `set default` also reads the target's own dependencies: a promptless target without default / range has no other edge from G
+    for typ, lit in (("int", "3"), ("hex", "0x1F"), ("string", "sv"), ("float", "3.25")):
+        u = gate("U", "n")
+        u["wsets"].append({"t": "T", "v": C(lit), "c": Y, "str": typ == "string"})
+        o = mk_config("OBS", "bool", defaults=[{"v": Y, "c": ["=", S("T"), C(lit)]}])
+        if typ == "float":
+            o = mk_config("OBS", "float", defaults=[{"v": S("T"), "c": Y}])
+        prog("direct-dep-only-wset-" + typ, [gate("G"), u, mk_config("T", typ, prompt=None, dep=S("G")), o], [gv, uv])
     prog("depends-on-prompt", [gate("G"), mk_config("T", "bool", prompt=Y, dep=S("G"), defaults=[{"v": Y, "c": Y}]), obs_b()], [gv, tb])
     # numeric targets
     prog("range-lo", [g_int, mk_config("T", "int", prompt=Y, ranges=[{"lo": S("G"), "hi": C("100"), "c": Y}], defaults=[{"v": C("1"), "c": Y}]), obs_i("3")], [giv, ti])
